@@ -353,4 +353,16 @@ def replay(spec):
             want = want + C @ lever
         if not np.allclose(z1, want[:rows], atol=1e-4):
             fails.append('z != predicted antenna position - measured position in NED metres')
+        # the same with a measured position some 30 m away (the centimetre offset above cannot show a
+        # wrong SCALE of the residual): independent reference through ECEF; the two agree to 2e-4 m on
+        # the unchanged code over the whole domain (second-order terms), a scale error of altitude /
+        # Earth radius is 5e-3 m at 1 km altitude
+        far = np.array([pva.lat + 3e-4 * pt.get('m_lat', 0.3), pva.lon + 3e-4 * pt.get('m_lon', -0.2), pva.alt + 30 * pt.get('m_alt', 0.5)])
+        ms2 = measurements.Position(pd.DataFrame([far], columns=['lat', 'lon', 'alt'], index=[1.0]), sd, lever if 'lever' in cname else None)
+        zf = np.asarray(ms2.compute_matrices(1.0, pva, em)[0], dtype=float)
+        wantf = -transform.lla_to_ned(np.array([far]), pva[['lat', 'lon', 'alt']].values)[0]
+        if 'lever' in cname:
+            wantf = wantf + C @ lever
+        if np.abs(zf - wantf[:rows]).max() > 1e-3:
+            fails.append('z for a measured position 30 m away differs from predicted - measured in NED metres by %.3g m (altitude %.0f m)' % (np.abs(zf - wantf[:rows]).max(), pva.alt))
     return {'violated': bool(fails), 'detail': fails}
